@@ -50,3 +50,15 @@ m("c08-switch-lt", "C08", "controller/switch.py", "if demand <= self.target.dema
 m("c08-switch-first-match", "C08", "controller/switch.py", "                chosen = slave\n", "                chosen = slave\n                break\n")
 m("c08-switch-no-retarget", "C08", "controller/switch.py", "        for _, slave in self._slaves:\n            slave.target = target\n", "")
 m("c08-switch-unsorted", "C08", "controller/switch.py", "self._slaves = tuple(sorted(pairwise(slaves)))", "self._slaves = tuple(pairwise(slaves))")
+# ---- C16
+m("c16-log-after-write", "C16", "decorator/logger.py",
+  "    def demand(self, value):\n        self._logger.log(", "    def demand(self, value):\n        self.target.demand = value\n        self._logger.log(")
+m("c16-level-ignored", "C16", "decorator/logger.py", "        self._logger.log(\n            self.level,\n", "        self._logger.log(\n            logging.INFO,\n")
+m("c16-template-unchecked", "C16", "decorator/logger.py", "            message % _LOGGER_TEST_FIELDS\n", "            pass\n")
+m("c16-util-is-alloc", "C16", "interfaces/_proxy.py", "        return self.target.utilisation", "        return self.target.allocation")
+m("c16-supply-field-demand", "C16", "decorator/logger.py", '"supply": self.target.supply,', '"supply": self.target.demand,')
+m("c16-value-is-float", "C16", "decorator/logger.py", '"value": value,', '"value": float(value),')
+m("c16-log-twice-on-change", "C16", "decorator/logger.py",
+  "        self.target.demand = value\n\n    @property\n    def name",
+  "        if value != self.target.demand and value > 90:\n            self._logger.log(self.level, self.message, {'value': value, 'demand': 0, 'supply': 0, 'utilisation': 0, 'allocation': 0, 'consumption': 0, 'target': self.target})\n        self.target.demand = value\n\n    @property\n    def name")
+m("c16-name-ignored", "C16", "decorator/logger.py", "        self._logger = logging.getLogger(value)", "        self._logger = logging.getLogger('cobald.' + value)")
